@@ -11,7 +11,7 @@ import types
 import z3
 
 from . import extract, seqops
-from .contract import Const, Elem, ElemList, Facade, FixedList, Link, OpaqueField, RegionList, Loop, MapOf, Obj, OneOf, Optional, Region, Root, Same, SeqOf, Spec, SymDict, _Scalar
+from .contract import Const, Elem, ElemList, Facade, FixedList, Link, NoneUnless, OpaqueField, RegionList, Loop, MapOf, Obj, OneOf, Optional, Region, Root, Same, SeqOf, Spec, SymDict, _Scalar
 from .core import Explorer, Infeasible, Path, PathEnd, PyRaise
 from .interp import Interp, OldNS
 from .interp_call import Frame
@@ -71,12 +71,18 @@ def make_symbolic(I: Interp, spec, hint, root=None, env=None):
         name = "in:" + hint
         dom = z3.Array(name + ".dom", z3.IntSort(), z3.BoolSort())
         fields = {}
+        optional = {}
         for f, fs in spec.fields.items():
+            if isinstance(fs, NoneUnless):
+                optional[f] = fs.flag
+                fs = fs.inner
             if not isinstance(fs, _Scalar):
                 raise Unsupported("MapOf fields must be scalars")
             fields[f] = (fs.kind, z3.Array(f"{name}.{f}", z3.IntSort(), sort_of(fs.kind)))
         path.ex.inputs[name + ".dom"] = {"kind": "map", "dom": dom, "fields": fields}
-        return path.alloc(MapCell("int", "ref", dom, None, spec.cls, fields))
+        mref = path.alloc(MapCell("int", "ref", dom, None, spec.cls, fields))
+        path.cell(mref).optional = optional
+        return mref
     if isinstance(spec, Region):
         from .values import MapCell
         regions = path.ghost.setdefault("regions", {})
